@@ -178,3 +178,82 @@ def segmentation(rng, n):
         last = p
     out.append(n - last)
     return out
+
+
+# ---------------------------------------------------------------------------------------------
+# responses (C08)
+
+STATUS = [(200, b"OK"), (200, b"OK"), (201, b"Created"), (204, b"No Content"), (304, b"Not Modified"), (404, b"Not Found"),
+          (500, b"Internal Server Error"), (200, b""), (299, b"Odd reason \xe9")]
+
+
+def gen_response_stream(rng, gz_table=(), max_body=200, p_mut=0.4):
+    """One response (optionally preceded by interim 1xx responses), possibly mutated at a framing-relevant
+    position.  Returns (bytes, info) with info = {"gz": bool}."""
+    w = Wire()
+    for _ in range(rng.choice([0, 0, 0, 1, 2])):
+        w.add(rng.choice([b"HTTP/1.1 100 Continue", b"HTTP/1.1 103 Early Hints", b"HTTP/1.1 102 Processing"]), hot=True)
+        w.eol(rng)
+        if rng.random() < 0.3:
+            w.add(b"X-Interim: " + rand_value(rng))
+            w.eol(rng)
+        w.eol(rng, p_lf=0.03)
+    code, reason = rng.choice(STATUS)
+    w.add(rng.choice([b"HTTP/1.1", b"HTTP/1.1", b"HTTP/1.0"]), hot=True)
+    w.add(b" ", hot=True)
+    w.add(b"%d" % code, hot=True)
+    w.add(b" ", hot=True)
+    w.add(reason)
+    w.eol(rng)
+    use_gz = bool(gz_table) and code == 200 and rng.random() < 0.3
+    if use_gz:
+        enc, dec = rng.choice(gz_table)
+        body = enc[:len(enc) - rng.choice([0, 0, 0, 1, 7])]
+    else:
+        body = bytes(rng.randrange(256) for _ in range(rng.choice([0, 1, 3, 17, 64, 65, max_body])))
+    framing = rng.choice(["cl", "cl", "chunked", "close"])
+    if code in (204, 304):
+        framing, body = rng.choice(["none", "none", "cl0"]), b""
+    fields = [("x", None) for _ in range(rng.randrange(0, 4))]
+    if framing in ("cl", "cl0"):
+        fields.append(("cl", None))
+        if rng.random() < 0.08:
+            fields.append(("cl", None))
+    elif framing == "chunked":
+        fields.append(("te", None))
+    if use_gz:
+        fields.append(("ce", None))
+    if rng.random() < 0.2:
+        fields.append(("sc", None))
+    rng.shuffle(fields)
+    for kind, _ in fields:
+        if kind == "x":
+            w.add(rng.choice(NAMES))
+            w.add(b": ")
+            w.add(rand_value(rng) or b"v")
+        elif kind == "cl":
+            w.add(rng.choice([b"Content-Length", b"content-length"]), hot=True)
+            w.add(b": ")
+            w.add(b"%d" % len(body), hot=True)
+        elif kind == "te":
+            w.add(b"Transfer-Encoding", hot=True)
+            w.add(b": ")
+            w.add(rng.choice([b"chunked", b"Chunked"]), hot=True)
+        elif kind == "ce":
+            w.add(b"Content-Encoding: ")
+            w.add(rng.choice([b"gzip", b"gzip", b"GZIP"]))
+        elif kind == "sc":
+            w.add(b"Set-Cookie: a=1")
+            w.eol(rng)
+            w.add(b"Set-Cookie: b=2")
+        w.eol(rng)
+    w.eol(rng, p_lf=0.03)
+    if framing == "chunked":
+        chunked_body(rng, w, body)
+    else:
+        w.add(body)
+    if rng.random() < 0.1:
+        w.add(b"trailing garbage")
+    if rng.random() < p_mut:
+        mutate(rng, w)
+    return bytes(w.b), {"gz": use_gz}
